@@ -18,7 +18,7 @@ EXPLANATION = (
     "MatchedArg::check_explicit returns false first for non-explicit sources. R6.7 one default: in Parser::add_default_value the first matching conditional default ends the function (neither the "
     "next condition nor the plain default is reachable after a match, with or without a value), the conditional value comes from "
     "the matching triple and the plain value from Arg::default_vals, and a condition on an argument that is not in the matches "
-    "is false. NOT decided: the combination at run time, globals."
+    "is false. R6.8 command-line values are never left pending when parse gives up: every error that Parser::parse constructs inside its token loop (unknown argument, no_equals, too many values, did-you-mean, invalid UTF-8, match_arg_error) is preceded on every path from the loop head by resolve_pending — with ignore_errors the env/default phases run after such an error and would otherwise treat the pending argument as absent (all sites do this today; the rule is the confirmed majority pattern). NOT decided: the combination at run time, globals."
 )
 TRUSTED = ["rustc MIR", "clapfacts", "lib/vset.py", "derived Ord follows declaration order"]
 ASSUMPTIONS = ["Arg::env reads the environment at definition time (outside this property)"]
@@ -194,3 +194,34 @@ def run(ctx):
             others = [x for x in ae.calls() if not sp_macro(x.sp) and x.callee_q and x.callee_q.startswith("clap_builder::") and not x.is_(r"Command::get_arguments$", r"ArgMatcher::contains$", r"Parser::react$")]
             res.check(okv and not others, "R6.3", "env-value-verbatim", c.where(), "react receives vec![env value of that argument]",
                       "the environment value is transformed or taken from elsewhere before react (%s; other calls %s)" % ([expr(ae, t.args[0])[:60] for t in tos], [x.callee_q.rsplit("::", 1)[1] for x in others]))
+
+
+    # ---- R6.8 pending command-line values are flushed before an in-loop error leaves parse
+    pp = fx.body("clap_builder::parser::parser::Parser::parse")
+    heads = pp.calls_to(r"clap_lex::RawArgs::next$")
+    rps = [c.bb for c in pp.calls_to(r"Parser::resolve_pending$")]
+    res.floor("R6.8", "loop head of Parser::parse", len(heads), 1)
+    if heads:
+        h = heads[0]
+        loop = pp.reachable(h.target) if h.target is not None else set()
+        nerr = 0
+        for i, j, s_ in pp.stmts():
+            if not (s_["k"] == "assign" and s_["place"] == 0 and s_["rv"]["k"] == "agg" and s_["rv"].get("variant") == "Err"):
+                continue
+            e = expr(pp, s_["rv"]["ops"][0])
+            m = re.match(r"^(\w+)\(", e)
+            if not m or e.endswith("#Err.0") or i not in loop or not pp.reaches(i, h.bb) and not re.match(r"^(no_equals|did_you_mean_error|too_many_values|unknown_argument|invalid_utf8|match_arg_error)$", m.group(1)):
+                continue
+            if not re.match(r"^(no_equals|did_you_mean_error|too_many_values|unknown_argument|invalid_utf8|match_arg_error|wrong_number_of_values|too_few_values|invalid_value)$", m.group(1)):
+                continue
+            nerr += 1
+            avoid = pp.must_pass(rps, frm=h.target, to=[i])
+            if avoid:
+                # the flush may have moved into the error-building helper: accept it when that helper flushes on every path
+                for hb in fx.bodies(r"^clap_builder::parser::parser::Parser::%s$" % m.group(1)):
+                    hr = [c.bb for c in hb.calls_to(r"Parser::resolve_pending$")]
+                    if hr and not hb.must_pass(hr):
+                        avoid = []
+            res.check(not avoid, "R6.8", "pending-flushed-before-error|%s" % m.group(1), "%s bb%d" % (pp.where(), i), "resolve_pending on every path from the loop head to this error",
+                      "Parser::parse returns the %s error with values still pending: under ignore_errors the argument that was being filled counts as absent for the env/default phases and its command-line values are lost" % m.group(1))
+        res.floor("R6.8", "errors constructed inside the parse loop", nerr, 7)
